@@ -42,7 +42,7 @@ def main(ctx):
     ctx.audit(GROUP)
     failed = ctx.prove(GROUP, "Props_C37", THEOREMS)
     bindir = ctx.harness(GROUP, profile="release", bins=["c37"])
-    cases = ctx.gen_exec(bindir, "c37", int(os.environ.get('VERIF_N', ctx.n(30, 200))), inputs=ctx.replay_inputs())
+    cases = ctx.gen_exec(bindir, "c37", int(os.environ.get('VERIF_N', ctx.n(30, 100))), inputs=ctx.replay_inputs())
     shard = max(4, -(-len(cases) // vf.NCPU))
     ctx.correspond("block-quantized-matmul-vs-dequant-gemm", GROUP, REQ, cases, show="show", agree="always",
                    prop_ok="prop_ok", shard=shard, fn_name="Gemm.BlockQuant.dequant + gemm_spec vs BlockQuantizedGemm / GemmExecutor")
